@@ -137,6 +137,11 @@ func (e *Endpoint) expectedParams(m *corpus.MethodSpec, v *model.Value) *model.V
 	for _, f := range td.Fields {
 		if fv := c.Fields[f.Name]; fv != nil {
 			c.Fields[f.Name] = refcodec.FillDefaults(e.Set.Schema, f.Type, fv)
+		} else if f.Default != nil {
+			// a parameter the caller left out arrives with its default
+			if d, err := refcodec.DecodeJSON(e.Set.Schema, f.Type, []byte(*f.Default), refcodec.DecodeOpts{}); err == nil {
+				c.Fields[f.Name] = refcodec.FillDefaults(e.Set.Schema, f.Type, d)
+			}
 		}
 	}
 	return c
